@@ -8,3 +8,7 @@ package heimdall
 // C01: every call that records a pipeline error on a request context is logged (ghost log spe).
 //@ iface (Context).SetPipelineError
 //@   logged spe
+
+// the request view handed to the pipeline (logged so that contracts can name it)
+//@ iface (Context).Request
+//@   logged req
